@@ -73,8 +73,11 @@ func (hc *CothorityConfig) Save(file string) error {
 // LoadCothority loads a conode config from the given file.
 func LoadCothority(file string) (*CothorityConfig, error) {
 	hc := &CothorityConfig{}
-	_, err := toml.DecodeFile(file, hc)
+	md, err := toml.DecodeFile(file, hc)
 	if err != nil {
+		return nil, xerrors.Errorf("toml decoding: %v", err)
+	}
+	if err := ambiguousKeys(md, 1); err != nil {
 		return nil, xerrors.Errorf("toml decoding: %v", err)
 	}
 
@@ -281,8 +284,11 @@ func (g *Group) Save(suite suites.Suite, filename string) error {
 // an error is returned.
 func ReadGroupDescToml(f io.Reader) (*Group, error) {
 	group := &GroupToml{}
-	_, err := toml.DecodeReader(f, group)
+	md, err := toml.DecodeReader(f, group)
 	if err != nil {
+		return nil, xerrors.Errorf("toml decoding: %v", err)
+	}
+	if err := ambiguousKeys(md, 2); err != nil {
 		return nil, xerrors.Errorf("toml decoding: %v", err)
 	}
 	// convert from ServerTomls to entities
@@ -501,6 +507,47 @@ func (cu CertificateURL) blobPart() string {
 		return vals[0]
 	}
 	return vals[1]
+}
+
+// ambiguousKeys returns an error if the file holds two keys that differ only
+// in the case of their letters where the decoder matches keys to fields
+// without regard to case (`Public` and `public` in one table, `[[servers]]`
+// and `[[Servers]]`, ...): the TOML library takes them for different keys,
+// stores both into the same field, and which one is stored last follows the
+// iteration order of a map - the identity read from such a file would change
+// from one parse to the next. mapLevel is the depth at which the keys are
+// the names of services (keys of a map, which are compared exactly).
+func ambiguousKeys(md toml.MetaData, mapLevel int) error {
+	seen := make(map[string]string)
+	for _, key := range md.Keys() {
+		for n := 1; n <= len(key); n++ {
+			folded := make([]string, n)
+			for i, k := range key[:n] {
+				if i == mapLevel {
+					folded[i] = k
+				} else {
+					folded[i] = strings.ToLower(k)
+				}
+			}
+			f := strings.Join(folded, "\x00")
+			exact := strings.Join(key[:n], "\x00")
+			if n == len(key) && md.Type(key...) == "ArrayHash" {
+				// the next element of an array of tables: its keys are
+				// not those of the element before
+				for k := range seen {
+					if strings.HasPrefix(k, f+"\x00") {
+						delete(seen, k)
+					}
+				}
+			}
+			if prev, ok := seen[f]; ok && prev != exact {
+				return xerrors.Errorf("keys `%s` and `%s` differ only in case",
+					strings.Replace(prev, "\x00", ".", -1), strings.Replace(exact, "\x00", ".", -1))
+			}
+			seen[f] = exact
+		}
+	}
+	return nil
 }
 
 // parseServiceConfig takes the map and creates service identities
